@@ -47,6 +47,9 @@ RULE = ('seeded parameter sets: S/K in [0.3,3] (half of them in [0.7,1.4]), t in
         'strikes within 1.5 sd of the spot; PSOR parameters theta in {0.5,0.6,0.75,0.9,1}, num_samples {400,600}, num_time_steps '
         '{default,200,300}, num_std, smooth; model correspondence of calculate_fd_matrix / fd_roll_backwards / PSOR on random '
         'non-uniform grids of 2..21 nodes and of black_scholes_fd / black_scholes_fd_PSOR on 10..80 samples, 5..30 steps, theta as above. '
+        're-use oracle: one product + one model object (FXVanillaOption AMERICAN, EquityAmericanOption / BlackScholes.value with each American-capable '
+        'BlackScholesTypes, EquityBinomialTree, EquityVanillaOption) valued in market A, B (one input changed: spot, vol, discount curve only, '
+        'dividend/foreign curve only, both rates shifted equally with r = q or r != q, value date), A again, vs fresh objects bit for bit. '
         'Non-trivial = the pricer returned a finite number and the option is not worthless '
         '(> 1e-8 K); cases are distinct draws from continuous laws.')
 
@@ -670,6 +673,159 @@ def run(ctx):
     ctx.count('FXVanillaOption AMERICAN (spot_days 0..3, dates around weekends)', 3 * nfx, 3 * nfx)
     ctx.cov['fx_american_cases_with_t_del_ne_t_exp'] = n_lag
     lap('fx-american')
+    # ------------------------------------------------------------------ 3h. re-use: ONE product object and ONE model object valued in market A, then in
+    # market B (exactly one input changed), then in A again -- every valuation must be bit-for-bit the valuation of FRESH objects in that
+    # market (the value is a function of the market it is given), and American >= European must hold on the SECOND valuation
+    from financepy.products.equity.equity_vanilla_option import EquityVanillaOption
+    from financepy.products.equity.equity_binomial_tree import (EquityBinomialTree as EBT_, EquityTreePayoffTypes as PT_,
+                                                                 EquityTreeExerciseTypes as ET_)
+    rng = ctx.rng('reuse')
+
+    def same_bits(a, b):
+        if a[0] != b[0]:
+            return False
+        if a[0] == 'e':
+            return a[1] == b[1]
+        return len(a[1]) == len(b[1]) and all(x == y or (x != x and y != y) for x, y in zip(a[1], b[1]))
+
+    def outcome(fn):
+        """('f', (every float of the result...), main value) | ('e', exception type)"""
+        try:
+            v = quiet(fn)
+        except Exception as e:  # noqa: BLE001
+            return ('e', type(e).__name__)
+        if isinstance(v, dict):
+            return ('f', tuple(float(v[k_]) for k_ in sorted(v) if isinstance(v[k_], (int, float, np.floating)) and not isinstance(v[k_], bool)),
+                    float(v['v']))
+        if isinstance(v, np.ndarray):
+            return ('f', tuple(float(z) for z in v.flatten()), float(v.flatten()[0]))
+        return ('f', (float(v),), float(v))
+
+    PERT = ['spot', 'vol', 'discount-curve-only', 'dividend-or-foreign-curve-only', 'both-rates-same-shift (forward unchanged)',
+            'value-date']
+
+    def market(rng_, equal_rates):
+        r = rng_.choice([0.0, 0.01, 0.03, 0.05, 0.08])
+        q = r if equal_rates else rng_.choice([0.0, 0.02, 0.05, 0.08, r])
+        return dict(vd=Date(13, 2, 2018).add_days(rng_.randrange(0, 5)), days=rng_.choice([30, 91, 365, 730]), r=r, q=q,
+                    vol=rng_.choice([0.1, 0.2, 0.4]), mny=rng_.choice([0.7, 0.9, 1.0, 1.04, 1.3, 1.8]))
+
+    def perturb(m, kind, rng_):
+        b = dict(m)
+        if kind == 'spot':
+            b['mny'] = m['mny'] * rng_.choice([0.9, 1.03, 1.25])
+        elif kind == 'vol':
+            b['vol'] = m['vol'] * rng_.choice([0.5, 1.5])
+        elif kind == 'discount-curve-only':
+            b['r'] = m['r'] + rng_.choice([0.02, 0.05]) if m['r'] < 0.05 else m['r'] - rng_.choice([0.02, 0.05])
+        elif kind == 'dividend-or-foreign-curve-only':
+            b['q'] = m['q'] + rng_.choice([0.02, 0.05]) if m['q'] < 0.05 else m['q'] - rng_.choice([0.02, 0.05])
+        elif kind.startswith('both-rates'):
+            lo = min(m['r'], m['q'])
+            d_ = rng_.choice([-lo, 0.02, 0.04]) if lo > 0 else rng_.choice([0.02, 0.04, 0.08])
+            b['r'], b['q'] = m['r'] + d_, m['q'] + d_
+        else:
+            b['vd'] = m['vd'].add_days(rng_.choice([1, 7, 20]))
+            b['days'] = m['days'] - (b['vd'] - m['vd'])
+        return b
+
+    # product kinds: (name, builder of (valuer(market, model_or_None) -> callable, european valuer or None, model factory or None, tol for am >= eu))
+    BS_AMER = [(T.CRR_TREE, {}), (T.DEFAULT, {}), (T.BARONE_ADESI, {}), (T.Bjerksund_Stensland, {}), (T.LSMC, {'num_paths': 2000}),
+               (T.FINITE_DIFFERENCE, {'params': {'num_samples': 300}}), (T.PSOR, {'params': {'num_samples': 200, 'num_time_steps': 60}})]
+    n_reuse = 0
+    n_reuse_hist = 0
+    reuse_out = {}
+    nru = 48 if ctx.quick() else 600
+    for i in range(nru):
+        kindp = ['FXVanillaOption', 'EquityAmericanOption', 'BlackScholes.value', 'EquityBinomialTree', 'EquityVanillaOption'][i % 5]
+        # deterministic schedule per product kind: the forward-preserving shift with r = q (the forward is then bit-identical) comes first
+        sched = [(4, True), (2, False), (0, False), (4, False), (3, False), (1, False), (5, False), (4, True), (2, True)]
+        pi_, eq_ = sched[(i // 5) % len(sched)]
+        pert = PERT[pi_]
+        mA = market(rng, equal_rates=eq_)
+        mB = perturb(mA, pert, rng)
+        call = rng.random() < 0.5
+        ao, eo = (O.AMERICAN_CALL, O.EUROPEAN_CALL) if call else (O.AMERICAN_PUT, O.EUROPEAN_PUT)
+        if kindp == 'EquityVanillaOption' and (i // 5) % 2 == 0:
+            ao = eo         # the class rejects American types with a FinError (also compared); European types half of the time
+        K = 100.0 if kindp != 'FXVanillaOption' else 1.25
+        expiry = mA['vd'].add_days(mA['days'])
+        bt, kw = BS_AMER[(i // 5) % len(BS_AMER)]
+        if bt == T.BARONE_ADESI:
+            mA['r'], mB['r'] = max(mA['r'], 0.01), max(mB['r'], 0.01)     # r = 0 divides by zero (known finding, section 4)
+
+        def mk_model(vol_, bt_=bt, kw_=kw):
+            return BlackScholes(vol_, bt_, **{k_: (dict(v_) if isinstance(v_, dict) else v_) for k_, v_ in kw_.items()}) \
+                if kindp in ('EquityAmericanOption', 'BlackScholes.value', 'EquityVanillaOption') else BlackScholes(vol_)
+
+        def mk_product(ot):
+            if kindp == 'FXVanillaOption':
+                return FXVanillaOption(expiry, K, 'EURUSD', ot, 1.0e6, 'USD', rng_spot_days)
+            if kindp == 'EquityAmericanOption':
+                return EquityAmericanOption(expiry, K, ot)
+            if kindp == 'EquityVanillaOption':
+                return EquityVanillaOption(expiry, K, ot)
+            if kindp == 'EquityBinomialTree':
+                return EBT_()
+            return None
+        rng_spot_days = rng.choice([0, 2])
+        ebt_steps = rng.choice([20, 50, 101])
+
+        def valuer(prod, model, m, ot):
+            S_ = K * m['mny']
+            t_ = (expiry - m['vd']) / 365.0
+            if kindp == 'BlackScholes.value':
+                return lambda: model.value(S_, t_, K, m['r'], m['q'], ot)
+            dc, qc = DiscountCurveFlat(m['vd'], m['r']), DiscountCurveFlat(m['vd'], m['q'])
+            if kindp == 'EquityBinomialTree':
+                prm = np.array([1.0 if call else -1.0, K])
+                ex_ = ET_.AMERICAN if ot in (O.AMERICAN_CALL, O.AMERICAN_PUT) else ET_.EUROPEAN
+                return lambda: prod.value(S_, dc, qc, m['vol'], ebt_steps, m['vd'], PT_.VANILLA_OPTION, expiry, PT_.VANILLA_OPTION, ex_, prm)
+            return lambda: prod.value(m['vd'], S_, dc, qc, model)
+        # a model object carries the volatility: when the volatility is the changed input the SAME product is valued with a second model
+        prod = mk_product(ao)
+        model_A = mk_model(mA['vol'])
+        model_B = model_A if mB['vol'] == mA['vol'] else mk_model(mB['vol'])
+        seq = [('A', mA, model_A), ('B', mB, model_B), ('A again', mA, model_A)]
+        history = []
+        for step_i, (lab, m, mod) in enumerate(seq):
+            got = outcome(valuer(prod, mod, m, ao))
+            fresh = outcome(valuer(mk_product(ao), mk_model(m['vol']), m, ao))
+            n_reuse += 1
+            key_ = f"{kindp}/{bt.name if kindp in ('EquityAmericanOption', 'BlackScholes.value', 'EquityVanillaOption') else '-'}"
+            reuse_out.setdefault(key_, {'value': 0, 'error': 0})['value' if got[0] == 'f' else 'error'] += 1
+            desc = dict(product=kindp, model=bt.name if kindp in ('EquityAmericanOption', 'BlackScholes.value', 'EquityVanillaOption') else 'BlackScholes',
+                        model_args=kw, side='call' if call else 'put', strike=K, expiry=str(expiry), spot_days=rng_spot_days if kindp == 'FXVanillaOption' else None,
+                        num_steps=ebt_steps if kindp == 'EquityBinomialTree' else None, changed_input=pert,
+                        history=[dict(step=h_[0], value_dt=str(h_[1]['vd']), spot=K * h_[1]['mny'], r=h_[1]['r'], q=h_[1]['q'], vol=h_[1]['vol']) for h_ in history],
+                        this_valuation=dict(step=lab, value_dt=str(m['vd']), spot=K * m['mny'], r=m['r'], q=m['q'], vol=m['vol']),
+                        reused_objects=got, fresh_objects=fresh)
+            if not same_bits(got, fresh):
+                n_reuse_hist += 1
+                ctx.violation(f'{kindp}: the value in a market depends on what the same object was asked before (step {lab!r} after {len(history)} valuation(s); '
+                              f'changed input: {pert})', desc, clause='agreement')
+            history.append((lab, m))
+            if step_i == 1 and got[0] == 'f' and kindp != 'EquityVanillaOption':
+                # American >= European on the SECOND valuation (schemes whose dominance is an oracle of this check; BAW / BjS / LSMC have findings)
+                x = got[2]
+                t_ = (expiry - m['vd']) / 365.0
+                an_ = float(bs_value(K * m['mny'], t_, K, m['r'], m['q'], m['vol'], 1 if call else 2))
+                scale_ = K * m['vol'] * math.sqrt(max(t_, 1e-12))
+                if kindp == 'FXVanillaOption':
+                    tol_ = FX_TREE_TOL * scale_
+                elif kindp == 'EquityBinomialTree' or bt in (T.CRR_TREE, T.DEFAULT):
+                    tol_ = max(CRR52_EURO * K, 0.5 * scale_ / (ebt_steps if kindp == 'EquityBinomialTree' else 52))
+                elif bt in (T.FINITE_DIFFERENCE, T.PSOR) and kindp != 'EquityBinomialTree':
+                    tol_ = max(FD_TRUNC_EURO, 1e-3) * K
+                else:
+                    tol_ = None
+                if tol_ is not None and x < an_ - tol_:
+                    ctx.violation(f'{kindp}: American value below the European value on the second valuation of a re-used object',
+                                  dict(desc, american=x, european=an_), clause='american-ge-european')
+    ctx.count('re-use of one product / model object in two markets (6 changed inputs x 5 product kinds x model types)', n_reuse, n_reuse)
+    ctx.cov['reuse_history_dependent'] = n_reuse_hist
+    ctx.cov['reuse_outcomes'] = reuse_out
+    lap('reuse')
 
     # ------------------------------------------------------------------ 3d. FD resolution / scheme parameters accepted by the model object
     rng = ctx.rng('fd-params')
@@ -1305,6 +1461,43 @@ def replay(ctx, path):
     from financepy.models.black_scholes_analytic import bs_value
     c = v['case']
     print('replay case:', json.dumps(c)[:500], 'clause:', v.get('clause'))
+    if 'changed_input' in c and c.get('product') in ('FXVanillaOption', 'EquityAmericanOption', 'BlackScholes.value'):
+        # re-use oracle: replay the history on ONE product / model object, then the flagged valuation, and compare with fresh objects
+        from financepy.utils.date import Date
+        from financepy.market.curves.discount_curve_flat import DiscountCurveFlat
+        from financepy.products.fx.fx_vanilla_option import FXVanillaOption
+        from financepy.products.equity.equity_american_option import EquityAmericanOption
+        months = ['JAN', 'FEB', 'MAR', 'APR', 'MAY', 'JUN', 'JUL', 'AUG', 'SEP', 'OCT', 'NOV', 'DEC']
+
+        def pdate(txt):
+            d_, m_, y_ = txt.split('-')
+            return Date(int(d_), months.index(m_) + 1, int(y_))
+        ot = O.AMERICAN_CALL if c['side'] == 'call' else O.AMERICAN_PUT
+        edt = pdate(c['expiry'])
+        kw = {k_: (dict(v_) if isinstance(v_, dict) else v_) for k_, v_ in (c.get('model_args') or {}).items()}
+
+        def mk_model(vol):
+            return BlackScholes(vol) if c['product'] == 'FXVanillaOption' else BlackScholes(vol, T[c['model']], **kw)
+
+        def mk_prod():
+            if c['product'] == 'FXVanillaOption':
+                return FXVanillaOption(edt, c['strike'], 'EURUSD', ot, 1.0e6, 'USD', c['spot_days'])
+            return EquityAmericanOption(edt, c['strike'], ot) if c['product'] == 'EquityAmericanOption' else None
+
+        def val(prod, model, st):
+            vd = pdate(st['value_dt'])
+            if c['product'] == 'BlackScholes.value':
+                return float(quiet(model.value, st['spot'], (edt - vd) / 365.0, c['strike'], st['r'], st['q'], ot))
+            v_ = quiet(prod.value, vd, st['spot'], DiscountCurveFlat(vd, st['r']), DiscountCurveFlat(vd, st['q']), model)
+            return float(v_['v']) if isinstance(v_, dict) else float(v_)
+        prod, models = mk_prod(), {}
+        for st in c['history'] + [c['this_valuation']]:
+            model = models.setdefault(st['vol'], mk_model(st['vol']))
+            got = val(prod, model, st)
+            fresh = val(mk_prod(), mk_model(st['vol']), st)
+            print(st['step'], 'reused objects:', got, ' fresh objects:', fresh, '' if got == fresh else '  <-- differs')
+        print(f'VIOLATION property=C12 replay={path}')
+        return 1
     if c.get('product') == 'FXVanillaOption' and 'spot_days' in c:
         from financepy.utils.date import Date
         from financepy.market.curves.discount_curve_flat import DiscountCurveFlat
